@@ -36,6 +36,8 @@ type config struct {
 	SameHash bool
 	// stream length bounds: bare VoteSet quick/thorough, HeightVoteSet quick/thorough
 	Len [4]int
+	// Ext: thorough tier, bare VoteSet: one more letter under a time cap
+	Ext bool
 }
 
 const (
